@@ -209,18 +209,30 @@ def guarded(ctx, rid, key, comp, spec):
         ctx.expect(ok, rid, key, fn["sp"], "(g) guarded graph recursion: visited check is the first statement, the id is inserted before descending, the same set is threaded through",
                    "collect_type_ids does not start with `if visited.contains(id) {return}; visited.insert(id)`: " + t[:200])
     elif spec["check"] == "types_equal":
-        # every call reaches the recursion only after inserting both ids into their visited sets; returns when both were seen
-        body = fn["body"]
-        ins = [n for n in walk(body, into_closures=False) if n.get("k") == "MethodCall" and cshort(n.get("callee", "")) == "HashSet::insert"]
-        rec_in_closures = all(True for _ in [0])
-        first_rec_line = None
-        ok = len(ins) >= 2
-        t = show(N.term(body), 10 ** 5)
-        both = "(Not(HashSet::insert(P2,P0))&&Not(HashSet::insert(P5,P3)))=>return true" in t
-        ctx.expect(ok and both, rid, key, fn["sp"],
-                   "(g) guarded graph recursion: both ids are inserted into the per-side visited sets before any recursive comparison; a pair seen on both sides returns without descending "
-                   "(each descent strictly grows a visited set bounded by the registry size)",
-                   "types_equal_inner no longer inserts both ids / returns on re-visit before recursing")
+        # every descent is preceded by recording the compared pair; a pair seen again returns without descending,
+        # so each descent strictly grows a set bounded by (registry size)^2
+        ids = [i for i, t in enumerate(fn["inputs"]) if t == "u32"]
+        vis = [i for i, t in enumerate(fn["inputs"]) if "HashSet<" in t]
+        t = show(N.term(fn["body"]), 10 ** 5)
+        ok = False
+        why = "no visited-set guard before the recursive comparisons"
+        if len(ids) == 2 and len(vis) == 1 and "HashSet<(u32, u32)" in fn["inputs"][vis[0]]:
+            guard = "Not(HashSet::insert(P%d,(P%d,P%d)))=>return true" % (vis[0], ids[0], ids[1])
+            ok = guard in t.split("match(")[0]
+            why = "pair guard `%s` not found before the TypeDef match" % guard
+        elif len(ids) == 2 and len(vis) == 2:
+            g2 = "(Not(HashSet::insert(P%d,P%d))&&Not(HashSet::insert(P%d,P%d)))=>return true" % (vis[0], ids[0], vis[1], ids[1])
+            ok = g2 in t.split("match(")[0]
+            why = "per-side guards not found before the TypeDef match"
+        # the same set(s) must be threaded through every recursive call
+        for n, cal in _calls_into(ctx, fn, comp):
+            for v in vis:
+                if show(N.term(n["args"][v])) != "P%d" % v:
+                    ok = False
+                    why = "a recursive comparison does not thread the visited set through"
+        ctx.expect(ok, rid, key, fn["sp"],
+                   "(g) guarded graph recursion: the compared pair is recorded before any recursive comparison and a pair seen again returns without descending "
+                   "(each descent strictly grows a set bounded by the square of the registry size)", why)
 
 
 def transformer_scc(ctx, rid, key, comp, g, bindings):
